@@ -49,6 +49,17 @@ Theorem C05_client_values : forall c sd t,
   ((firstn 16 t, sp_reconnect_proof (sc_user c) (firstn 16 t) sd (sc_K c)), skipn 16 t).
 Proof. reflexivity. Qed.
 
+(* end to end: what the client computes for the challenge on offer is accepted by a server sharing its
+   user and session key, whatever the tapes hold *)
+Theorem C05_honest_reconnect : forall s c tc ts, ss_user s = sc_user c -> ss_K s = sc_K c ->
+  let '((cd, pf), _) := calculate_reconnect_values c (ss_chal s) tc in
+  fst (fst (verify_reconnection_attempt s cd pf ts)) = true.
+Proof.
+  intros s c tc ts HU HK. unfold calculate_reconnect_values, draw. cbv beta iota.
+  rewrite verify_step. cbn [fst]. rewrite HU, HK. apply list_eqb_refl.
+Qed.
+
+Print Assumptions C05_honest_reconnect.
 Print Assumptions C05_verdict.
 Print Assumptions C05_refresh.
 Print Assumptions C05_legit_forever.
